@@ -178,14 +178,23 @@ func (c Case) template() string {
 		// "/" separates attributes like white space
 		return "<" + c.Elem + pre + "/" + c.Attr + `="{{.V}}">`
 	case "slashsep2":
-		return "<" + c.Elem + pre + " data-x/" + c.Attr + `="{{.V}}">`
+		return "<" + c.Elem + pre + " data-q9/" + c.Attr + `="{{.V}}">`
 	case "wssplit":
-		// the white space between two attribute names comes from a branch: data-x A="..." or data-xA="..."
-		return "<" + c.Elem + " data-x{{if .C}} {{end}}" + c.Attr + `="{{.V}}">`
+		// the white space between two attribute names comes from a branch: data-q9 A="..." or data-q9A="..."
+		return "<" + c.Elem + " data-q9{{if .C}} {{end}}" + c.Attr + `="{{.V}}">`
 	case "namesplit":
 		// the attribute name is completed by the text after an empty template node
 		k := len(c.Attr) / 2
 		return "<" + c.Elem + " " + c.Attr[:k] + "{{if .C}}{{end}}" + c.Attr[k:] + `="{{.V}}">`
+	case "rangename":
+		// the attribute name is the body of a loop: with two iterations a browser sees the name twice, glued
+		return "<" + c.Elem + " {{range .L}}" + c.Attr + "{{else}}" + c.Attr + `{{end}}="{{.V}}">`
+	case "nestedcontent":
+		// the action follows a child element: it is still content of E
+		return "<" + c.Elem + "><b></b>{{.V}}</" + c.Elem + ">"
+	case "tagsuffixsplit":
+		// the tag name may go on: content of E, or of Ex
+		return "<" + c.Elem + "{{if .C}}x{{end}}>{{.V}}"
 	case "tagsplit":
 		// the tag name is completed by a branch
 		k := (len(c.Elem) + 1) / 2
@@ -293,6 +302,9 @@ func judge(cls string, c Case, p probe, out string, err error, bc, bd bool) stri
 	if err != nil {
 		return "" // stricter is never an alarm
 	}
+	if c.Pos == "nestedcontent" {
+		return "" // listed element content: judged by the "content" position
+	}
 	if c.Pos == "tagname" {
 		// "<{{.V}}>": the engine documents that such a '<' is text; acceptable iff no tag results
 		r := htmltok.Tokenize([]byte(out), htmltok.Options{})
@@ -323,12 +335,15 @@ func judge(cls string, c Case, p probe, out string, err error, bc, bd bool) stri
 	if c.Pos == "tagsplit" && !bc {
 		elem = c.Elem[:(len(c.Elem)+1)/2]
 	}
+	if c.Pos == "tagsuffixsplit" && bc {
+		elem += "x"
+	}
 	if st.Name != asciiLower(elem) {
 		return fmt.Sprintf("output %q: first tag is %q, want %q", out, st.Name, asciiLower(elem))
 	}
 	want := unicodex.Coerce(p.s)
 	want = strings.ReplaceAll(strings.ReplaceAll(want, "\r\n", "\n"), "\r", "\n")
-	if c.Pos == "content" || c.Pos == "condcontent" || c.Pos == "cmtcontent" {
+	if c.Pos == "content" || c.Pos == "condcontent" || c.Pos == "cmtcontent" || c.Pos == "tagsuffixsplit" {
 		// text run up to the end tag (or end of output)
 		text, raw := "", ""
 		idx := 1
@@ -356,7 +371,10 @@ func judge(cls string, c Case, p probe, out string, err error, bc, bd bool) stri
 		attr = c.Attr2
 	}
 	if c.Pos == "wssplit" && !bc {
-		attr = "data-x" + c.Attr
+		attr = "data-q9" + c.Attr
+	}
+	if c.Pos == "rangename" {
+		attr = c.Attr + c.Attr
 	}
 	var av *htmltok.Attr
 	for i := range st.Attrs {
@@ -468,7 +486,7 @@ func classOf(c Case, bc, bd bool) string {
 	switch c.Pos {
 	case "wssplit":
 		if !bc {
-			attr = "data-x" + c.Attr
+			attr = "data-q9" + c.Attr
 		}
 		return attrClass(elem, attr, c.Rel)
 	case "tagsplit":
@@ -478,9 +496,16 @@ func classOf(c Case, bc, bd bool) string {
 		return attrClass(elem, attr, c.Rel)
 	case "suffix":
 		return "Suffix:" + attrClass(elem, attr, c.Rel)
+	case "tagsuffixsplit":
+		if bc {
+			elem += "x"
+		}
+		return contentClass(elem)
+	case "rangename":
+		return attrClass(elem, attr+attr, c.Rel)
 	}
 	switch c.Pos {
-	case "content", "condcontent", "cmtcontent":
+	case "content", "condcontent", "cmtcontent", "nestedcontent":
 		return contentClass(elem)
 	case "dq", "sq", "partial", "condelem", "condattr", "condboth", "condattrempty", "slashsep", "slashsep2", "namesplit":
 		return attrClass(elem, attr, c.Rel)
@@ -511,7 +536,7 @@ func check(c Case) evid.Outcome {
 	type br struct{ c, d bool }
 	branches := []br{{true, true}}
 	switch c.Pos {
-	case "condelem", "condattr", "condcontent", "condattrempty", "condpartial", "wssplit", "namesplit", "tagsplit":
+	case "condelem", "condattr", "condcontent", "condattrempty", "condpartial", "wssplit", "namesplit", "tagsplit", "tagsuffixsplit":
 		branches = []br{{true, true}, {false, true}}
 	case "condboth":
 		branches = []br{{true, true}, {true, false}, {false, true}, {false, false}}
@@ -524,7 +549,14 @@ func check(c Case) evid.Outcome {
 				accepted++
 			}
 			if msg := judge(cls, c, p, out, err, b.c, b.d); msg != "" {
-				return evid.Viol("template %q, branches C=%v D=%v (reviewed class %s): %s", text, b.c, b.d, cls, msg)
+				v := evid.Viol("template %q, branches C=%v D=%v (reviewed class %s): %s", text, b.c, b.d, cls, msg)
+				if c.Pos == "rangename" {
+					v.Finding = "K-rangeglue"
+				}
+				if c.Pos == "nestedcontent" {
+					v.Finding = "K-nostack"
+				}
+				return v
 			}
 		}
 	}
@@ -574,7 +606,10 @@ func tableCases() []Case {
 			if !names.VoidElements[e] {
 				cs = append(cs, Case{Pos: "content", Elem: ev})
 			}
-			cs = append(cs, Case{Pos: "tagsuffix", Elem: ev}, Case{Pos: "attrname", Elem: ev})
+			cs = append(cs, Case{Pos: "tagsuffix", Elem: ev}, Case{Pos: "attrname", Elem: ev}, Case{Pos: "tagsuffixsplit", Elem: ev})
+			if !names.VoidElements[e] && contentClass(e) == "HTML" {
+				cs = append(cs, Case{Pos: "nestedcontent", Elem: ev})
+			}
 			if !names.VoidElements[e] && contentClass(e) != "RCDATA" {
 				// (inside title / textarea "<!--" is text, not a comment)
 				cs = append(cs, Case{Pos: "cmtcontent", Elem: ev})
@@ -609,7 +644,7 @@ func tableCases() []Case {
 	// conditional shapes over representative rows of every class
 	reps := [][2]string{{"a", "href"}, {"a", "title"}, {"a", "target"}, {"div", "dir"}, {"div", "id"}, {"div", "style"}, {"img", "src"}, {"img", "srcset"}, {"img", "loading"}, {"script", "src"}, {"script", "async"}, {"iframe", "srcdoc"}, {"form", "action"}, {"input", "accept"}, {"div", "data-x"}, {"link", "href"}, {"div", "onclick"}, {"foo", "title"}}
 	for _, r1 := range reps {
-		cs = append(cs, Case{Pos: "rangepartial", Elem: r1[0], Attr: r1[1]}, Case{Pos: "condattrempty", Elem: r1[0], Attr: r1[1]}, Case{Pos: "condpartial", Elem: r1[0], Attr: r1[1], Attr2: "x"}, Case{Pos: "condpartial", Elem: r1[0], Attr: r1[1], Attr2: "java"}, Case{Pos: "condpartial", Elem: r1[0], Attr: r1[1], Attr2: "/p/"})
+		cs = append(cs, Case{Pos: "rangename", Elem: r1[0], Attr: r1[1]}, Case{Pos: "rangepartial", Elem: r1[0], Attr: r1[1]}, Case{Pos: "condattrempty", Elem: r1[0], Attr: r1[1]}, Case{Pos: "condpartial", Elem: r1[0], Attr: r1[1], Attr2: "x"}, Case{Pos: "condpartial", Elem: r1[0], Attr: r1[1], Attr2: "java"}, Case{Pos: "condpartial", Elem: r1[0], Attr: r1[1], Attr2: "/p/"})
 		for _, r2 := range reps {
 			cs = append(cs, Case{Pos: "condboth", Elem: r1[0], Attr: r1[1], Elem2: r2[0], Attr2: r2[1]})
 			cs = append(cs, Case{Pos: "condelem", Elem: r1[0], Elem2: r2[0], Attr: r1[1]}, Case{Pos: "condattr", Elem: r1[0], Attr: r1[1], Attr2: r2[1]})
@@ -775,7 +810,7 @@ func fixName(n string, attr bool) string {
 }
 
 func gen(t *rapid.T) Case {
-	pos := rapid.SampledFrom([]string{"content", "dq", "dq", "sq", "unquoted", "partial", "tagsuffix", "attrname", "attrsuffix", "condelem", "condattr", "condcontent", "condboth", "condattrempty", "condpartial", "rangepartial", "dq-link", "cmtcontent", "suffix", "slashsep", "slashsep2", "wssplit", "namesplit", "tagsplit"}).Draw(t, "pos")
+	pos := rapid.SampledFrom([]string{"content", "dq", "dq", "sq", "unquoted", "partial", "tagsuffix", "attrname", "attrsuffix", "condelem", "condattr", "condcontent", "condboth", "condattrempty", "condpartial", "rangepartial", "dq-link", "cmtcontent", "suffix", "slashsep", "slashsep2", "wssplit", "namesplit", "tagsplit", "rangename", "tagsuffixsplit", "nestedcontent"}).Draw(t, "pos")
 	c := Case{Pos: pos, Elem: genName(t, "elem", false)}
 	if pos == "dq-link" {
 		c.Pos, c.Elem, c.Attr = "dq", rapid.SampledFrom([]string{"link", "LINK", "Link"}).Draw(t, "link"), rapid.SampledFrom([]string{"href", "HREF", "src", "hreflang", "data-href"}).Draw(t, "linkattr")
@@ -788,7 +823,7 @@ func gen(t *rapid.T) Case {
 		c.Rel = strings.Join(rs, rapid.SampledFrom([]string{" ", "  ", "\t", "\n"}).Draw(t, "relsep"))
 		return c
 	}
-	if pos != "content" && pos != "tagsuffix" && pos != "attrname" && pos != "condcontent" && pos != "cmtcontent" {
+	if pos != "content" && pos != "tagsuffix" && pos != "attrname" && pos != "condcontent" && pos != "cmtcontent" && pos != "tagsuffixsplit" && pos != "nestedcontent" {
 		c.Attr = genName(t, "attr", true)
 	}
 	if pos == "condelem" || pos == "condcontent" || pos == "condboth" {
@@ -800,10 +835,10 @@ func gen(t *rapid.T) Case {
 	if pos == "condpartial" {
 		c.Attr2 = rapid.SampledFrom([]string{"x", "java", "/p/", "lt", "a b", "&amp;", "https://h/"}).Draw(t, "static")
 	}
-	if pos == "cmtcontent" && contentClass(c.Elem) == "RCDATA" {
+	if (pos == "cmtcontent" || pos == "nestedcontent") && (contentClass(c.Elem) == "RCDATA" || contentClass(c.Elem) == "Script" || contentClass(c.Elem) == "StyleSheet") {
 		c.Pos = "content"
 	}
-	if (pos == "content" || pos == "condcontent" || pos == "cmtcontent") && (names.VoidElements[asciiLower(c.Elem)] || names.VoidElements[asciiLower(c.Elem2)]) {
+	if (pos == "content" || pos == "condcontent" || pos == "cmtcontent" || pos == "nestedcontent") && (names.VoidElements[asciiLower(c.Elem)] || names.VoidElements[asciiLower(c.Elem2)]) {
 		c.Pos, c.Attr, c.Elem2 = "dq", "title", ""
 	}
 	return c
